@@ -12,6 +12,21 @@ from fractions import Fraction as F
 
 from harness.c01_pool import POOL
 from tools import scgf, opcodes_ref
+import json as _json, os as _os
+# reference class table (droppable, width-first) — the specification, NOT read from the code
+CLASSREF = _json.load(open(_os.path.join(_os.path.dirname(_os.path.dirname(__file__)), 'c01_classes_ref.json')))
+
+
+def ref_droppable(name):
+    r = CLASSREF.get(name)
+    return bool(r) and r[0] == 1
+
+
+def ref_wf(name, fl=None):
+    r = CLASSREF.get(name)
+    if r is None:                      # class unknown to the reference: believe the code
+        return bool(fl and fl.get('wf'))
+    return r[1] == 1
 
 _RATE = {'audio': 'ar', 'control': 'kr', 'scalar': 'ir', 'demand': 'dr', None: 'ir'}
 _RNUM = {'audio': 2, 'control': 1, 'scalar': 0, 'demand': 3, None: 0}
@@ -159,9 +174,21 @@ def build_program(prog, residue_check=True, desc=True):
             cls = getattr(iou, e['cls'])
             bus = arg(e['bus'], env)
             chans = [arg(a, env) for a in e['chans']]
+            if e.get('shared'):
+                # a caller-owned channel list (all literals) that outlives the build: the same
+                # list object is handed to every build of this program
+                chans = prog.setdefault('_shared', {}).setdefault(i, chans)
+                rec.setdefault('shared', {})[i] = [arg(a, env) for a in e['chans']]
             mode = e['mode']
             if mode == 'auto':
                 mode = 'ar' if chans and getattr(chans[0], 'rate', 'scalar') == 'audio' else 'kr'
+            if mode == 'ar':
+                # channels an audio-rate output unit cannot take (the server would read a control
+                # block or a constant as an audio buffer): non-zero numbers, non-audio signals
+                badch = [k for k, c in enumerate(chans)
+                         if (is_num(c) and c != 0) or (not is_num(c) and getattr(c, 'rate', None) != 'audio')]
+                if badch:
+                    rec.setdefault('out_nonaudio', []).append([i, badch])
             getattr(cls, mode)(bus, chans)
             rec['objs'][i] = last_child()
             if mode == 'ar':
@@ -202,17 +229,28 @@ def build_program(prog, residue_check=True, desc=True):
             return body()
 
     out = {'flags': rec['flags'], 'sem': None, 'canon': None, 'skip': None}
+
+    def residue_():
+        r = residue()
+        # the build left the argument objects it was given as they were
+        for i, want in rec.get('shared', {}).items():
+            got = prog.get('_shared', {}).get(i)
+            if not (isinstance(got, list) and len(got) == len(want)
+                    and all(type(g) is type(w) and g == w for g, w in zip(got, want))):
+                r['args_intact'] = False
+                r['args_now'] = repr(got)[:120]
+        return r
     try:
         sd = SynthDef(prog.get('name', 'x'), func)
     except Exception as ex:      # the class name is the canonical outcome
         out['canon'] = 'ERR ' + type(ex).__name__
         out['flags'] = rec['flags']
         out['detail'] = str(ex)[:200]
-        out['residue'] = residue() if residue_check else None
+        out['residue'] = residue_() if residue_check else None
         if rec['inexact']:
             out['skip'] = 'inexact-constant'
         return out
-    out['residue'] = residue() if residue_check else None
+    out['residue'] = residue_() if residue_check else None
     if rec['inexact']:
         out['skip'] = 'inexact-constant'
     elif rec['negzero']:
@@ -243,6 +281,7 @@ def build_program(prog, residue_check=True, desc=True):
                         + '/' + ' '.join(str(r) for r in u['outs']) for u in d['ugens'])
                     + ' B=' + raw.hex())
     out['pnames'] = d['pnames']
+    out['out_nonaudio'] = rec.get('out_nonaudio')
     # where each constructor event's unit ended up (object identity), for ordering oracles
     kids = list(sd._children)
     out['positions'] = {str(ei): [i for i, c in enumerate(kids) if c is obj] for ei, obj in rec['objs'].items()}
@@ -350,7 +389,7 @@ def semantic_oracle(prog, rec, sd, d):
     for ei, obj in env_objs.items():
         ps = pos_of(obj)
         fl = rec['flags'].get(ei)
-        impure = (fl is None) or (not fl['dce'])
+        impure = not ref_droppable(type(obj).__name__)        # by the REFERENCE table, not by the class
         if impure and len(ps) != 1:
             e = events[ei - base]
             return {'what': f'side-effecting unit of event {ei} ({e.get("cls")}) appears {len(ps)} times in the emitted definition',
@@ -377,7 +416,7 @@ def semantic_oracle(prog, rec, sd, d):
                         'signature': 'c01:op-rate'}
 
     # --- semantic equivalence over Q with random valuations ----------------------------------
-    all_senv, all_vals = [], []
+    all_senv, all_vals, all_inter = [], [], []
     for trial in range(4):
         salt = (prog.get('name'), trial)
 
@@ -388,6 +427,8 @@ def semantic_oracle(prog, rec, sd, d):
             return _h('op', salt, name, tuple(vals))
 
         # source side
+        inter = {}
+        all_inter.append(inter)
         try:
             senv = []
             if params:
@@ -425,6 +466,7 @@ def semantic_oracle(prog, rec, sd, d):
                     senv.append([v])
                 elif t == 'madd':
                     senv.append([sarg(e['a']) * sarg(e['m']) + sarg(e['c'])])
+                    inter[i] = sarg(e['a']) * sarg(e['m'])      # the product unit a madd may leave behind
                 elif t == 'out':
                     senv.append([])
                 elif t == 'localbuf':
@@ -508,8 +550,10 @@ def semantic_oracle(prog, rec, sd, d):
         if e['t'] in ('unop', 'binop', 'madd'):
             sig = tuple(all_senv[t][base + j][0] for t in range(len(all_senv)))
             first_ev.setdefault(sig, base + j)
+            if e['t'] == 'madd' and all(base + j in all_inter[t] for t in range(len(all_senv))):
+                first_ev.setdefault(tuple(all_inter[t][base + j] for t in range(len(all_senv))), base + j)
     for ei, fl in rec['flags'].items():
-        if fl.get('wf'):
+        if ref_wf(fl.get('cls'), fl):
             ps = pos_of(env_objs[ei])
             if not ps:
                 continue
@@ -611,3 +655,113 @@ def desc_probe(payload):
         except Exception as ex:
             res.append({'error': f'{type(ex).__name__}: {str(ex)[:160]}'})
     return res
+
+
+# ---------------------------------------------------------------------------------------------
+# class table probe: which unit classes the optimiser may drop, which are width-first
+
+def _class_table():
+    import pkgutil, inspect
+    import sc3.synth.ugens as pkg
+    import sc3.synth.ugen as ugn
+    mods = [ugn]
+    for m in pkgutil.iter_modules(pkg.__path__):
+        try:
+            mods.append(importlib.import_module('sc3.synth.ugens.' + m.name))
+        except Exception:
+            pass
+    table = {}
+    for mod in mods:
+        for name, cls in vars(mod).items():
+            if not (inspect.isclass(cls) and issubclass(cls, ugn.SynthObject) and cls.__module__ == mod.__name__):
+                continue
+            fn = cls._optimize_graph
+            try:
+                src = inspect.getsource(fn)
+            except Exception:
+                src = None
+            if fn is ugn.SynthObject._optimize_graph:
+                drop = 0
+            elif src is None:
+                drop = 2
+            else:
+                body = [l.strip() for l in src.splitlines()[1:] if l.strip() and not l.strip().startswith('#')]
+                if '_perform_dead_code_elimination' in src:
+                    drop = 1
+                elif body in (['pass'], ['return'], ['return None']):
+                    drop = 0
+                else:
+                    drop = 2          # unknown optimiser override
+            table[name] = [drop, int(issubclass(cls, ugn.WidthFirstUGen)), mod.__name__.rsplit('.', 1)[1]]
+    return table
+
+
+def class_probe(payload):
+    _init(payload.get('mode', 'nrt'))
+    return _class_table()
+
+
+def class_witness(payload):
+    """For classes whose flags differ from the reference: build a small definition that shows the
+    consequence (a side-effecting unit nothing references is dropped; a unit created after a
+    width-first unit is placed before it)."""
+    _init(payload.get('mode', 'nrt'))
+    from sc3.synth.synthdef import SynthDef
+    from sc3.synth.ugens.oscillators import SinOsc, LFSaw
+    from sc3.synth.ugens.noise import WhiteNoise
+    from sc3.synth.ugens.inout import Out
+    from sc3.synth.ugens.bufio import LocalBuf
+    from sc3.synth.ugens.fft import FFT
+    table = _class_table()
+    out = {}
+    for name, (drop, wf) in payload['classes'].items():
+        rdrop, rwf = payload['ref'][name]
+        if name not in table:
+            out[name] = {}
+            continue
+        mod = importlib.import_module('sc3.synth.ugens.' + table[name][2]) if table[name][2] != 'ugen' else ugn
+        cls = getattr(mod, name)
+        found = None
+        for ctor in ('ar', 'kr', 'ir', 'new'):
+            if not hasattr(cls, ctor) or found:
+                continue
+            for argkind in ('none', 'buf', 'chain', 'chain2'):
+                pos = {}
+
+                def f():
+                    s = SinOsc.kr(1)
+                    if argkind == 'none':
+                        args = ()
+                    else:
+                        buf = LocalBuf.new(64, 1)
+                        if argkind == 'buf':
+                            args = (buf,)
+                        else:
+                            chain = FFT.kr(buf, WhiteNoise.ar())
+                            args = (chain,) if argkind == 'chain' else (chain, chain)
+                    getattr(cls, ctor)(*args)
+                    pos['x'] = _libsc3.main._current_synthdef._children[-1]
+                    y = LFSaw.kr(s)
+                    pos['y'] = _libsc3.main._current_synthdef._children[-1]
+                    Out.kr(0, y)
+                try:
+                    sd = SynthDef('w', f)
+                    d = scgf.parse(bytes(sd.as_bytes()))[0]
+                except Exception:
+                    continue
+                kids = list(sd._children)
+                px = [i for i, c in enumerate(kids) if c is pos['x']]
+                py = [i for i, c in enumerate(kids) if c is pos['y']]
+                found = {'ctor': ctor, 'args': argkind, 'px': px, 'py': py,
+                         'units': [u['cls'] for u in d['ugens']]}
+                break
+        w = {'case': {'class': name, 'witness': found}}
+        if found:
+            if drop == 1 and rdrop == 0 and not found['px']:
+                w['violation'] = (f'{name}.{found["ctor"]}(...) that nothing references is dropped from the emitted definition '
+                                  f'(units: {found["units"]}); the reference table lists {name} as side-effecting or stateful')
+            elif wf == 0 and rwf == 1 and found['px'] and found['py'] and found['py'][0] < found['px'][0]:
+                w['violation'] = (f'a unit created after {name}.{found["ctor"]}(...) is placed before it (units: {found["units"]}); '
+                                  f'the reference table lists {name} as a unit with an ordering side effect')
+        out[name] = w
+    return out
